@@ -181,7 +181,8 @@ def run_one(choices, params):
                     shp = arg_shapes(cls)
                     todo.append(("builtin", cls.__name__, shp[w.draw(len(shp))][0], w.draw(3)))
                 elif r < 9:
-                    todo.append(("custom", w.pick(("known", "lazy", "unknown", "known-notexc", "lazy-func")), w.pick(("empty", "imm", "unser")), w.draw(3)))
+                    todo.append(("custom", w.pick(("known", "lazy", "unknown", "known-notexc", "lazy-func", "unknown-shadow", "known-shadow")),
+                                 w.pick(("empty", "imm", "unser")), w.draw(3)))
                 else:
                     todo.append(("custom", "lazy", "imm", 0))
         lazy_n = [0]
@@ -199,6 +200,9 @@ def run_one(choices, params):
             else:
                 args = dict([("empty", ()), ("imm", ("msg", 5, (1.5, None))), ("unser", ("m", [1, 2], Unser()))])[shape]
                 clsname = "NotExc" if cname.endswith("notexc") else ("func" if cname.endswith("func") else "Boom")
+                if cname.endswith("shadow"):
+                    # a class of another module that merely has the *name* of a built-in exception
+                    clsname = ("TimeoutError", "KeyboardInterrupt", "ConnectionError", "SystemExit", "ValueError")[len(args) % 5 if attrsel else attrsel]
                 if cname.startswith("known"):
                     modname = "c09known"
                 elif cname.startswith("lazy"):
@@ -270,7 +274,7 @@ def run_one(choices, params):
             else:
                 real_ok = rcfg["instantiate_custom_exceptions"] and (
                     cname == "known" or (cname == "lazy" and rcfg["import_custom_exceptions"]))
-                if cname in ("known-notexc", "lazy-func"):
+                if cname in ("known-notexc", "lazy-func") or cname.endswith("shadow"):
                     real_ok = False
                 if real_ok:
                     sim.count("c09:custom-real-class")
@@ -335,7 +339,8 @@ def run_one(choices, params):
                     (("c09lazy_crafted3", "func"), (1,), (), "tb"), (("c09known", "NotExc"), (), (), "tb"),
                     (("builtins", "ValueError"), (1,), (("args", (9,)), ("__class__", "x"), ("_remote_tb", "fake")), "tb"),
                     (("builtins", "ValueError"), "notatuple", "attrs", 5), ((5, 6), (), (), "tb"),
-                    (("subprocess", "Popen"), (("true",),), (), "tb"), (("builtins", "SystemExit"), (0,), (), "tb")]
+                    (("subprocess", "Popen"), (("true",),), (), "tb"), (("builtins", "SystemExit"), (0,), (), "tb"),
+                    (("applib.errors", "KeyboardInterrupt"), (), (), "tb"), (("x", "SystemExit"), (1,), (), "tb")]
 
         def peer_task():
             try:
@@ -358,9 +363,11 @@ def run_one(choices, params):
                 res.wait()
                 try:
                     res.value
-                except BaseException:
-                    pass
-            except core.SimAbort:
+                except BaseException as ex:
+                    if (type(pl) is tuple and len(pl) == 4 and type(pl[0]) is tuple and pl[0][0] != "builtins" and not rcfg["instantiate_custom_exceptions"]
+                            and not isinstance(ex, vinegar.GenericException) and not isinstance(ex, (TypeError, ValueError, AttributeError))):
+                        raise core.Violation("custom-policy", "crafted payload %r surfaced as the built-in %s" % (pl[0], type(ex).__name__))
+            except (core.SimAbort, core.Violation):
                 raise
             except BaseException:
                 pass
@@ -405,7 +412,7 @@ def prepare(tier, seed):
         for shp, _ in arg_shapes(cls):
             for attrsel in (0, 2):
                 todo_all.append(("builtin", cls.__name__, shp, attrsel))
-    for cname in ("known", "lazy", "unknown", "known-notexc", "lazy-func"):
+    for cname in ("known", "lazy", "unknown", "known-notexc", "lazy-func", "unknown-shadow", "known-shadow"):
         for shp in ("empty", "imm", "unser"):
             todo_all.append(("custom", cname, shp, 1))
     for sb in range(4):
